@@ -43,8 +43,15 @@ def pipeline_specs(draw, i):
                              gen.sample_lists(universe, max_samples=2, max_leaves=5)))
     opts = {"fw": draw(st.sampled_from(gen.FRAMEWORKS)), "nested": draw(st.sampled_from([True, True, False])),
             "meta": draw(st.booleans()), "pic": draw(st.booleans()), "max_literals": draw(st.sampled_from([0, 10, 16, 2])),
-            "unicode": draw(st.sampled_from([True, True, False]))}
-    return {"samples": rename(samples, "_p%d" % i), "opts": opts}
+            "unicode": draw(st.sampled_from([True, True, False])),
+            "sreg": draw(st.sampled_from([list(pl.DEFAULT_SREG), list(pl.DEFAULT_SREG), list(pl.FULL_SREG)])),
+            # ordinary library use: no registry passed, all pipelines share the process-wide default registry
+            "default_registry": draw(st.sampled_from([False, True])),
+            "merge": draw(st.sampled_from([None, None, [["exact"]], [["percent", 50]], [["number", 2]]]))}
+    # a field whose strings are of different pseudo-types (resolution of pseudo-types runs for it)
+    mix = draw(st.sampled_from([["1", "2.5"], ["true", "7"], ["1", "2"], ["2018-01-02", "12:30"], ["x", "1.5", "3"], ["false", "true"]]))
+    samples = list(samples) + [{"mix": mix}, {"mix": list(reversed(mix))}]
+    return {"samples": rename(samples, "_p%d" % i), "opts": opts, "kind": draw(st.sampled_from(["library", "library", "library", "cli"]))}
 
 
 @st.composite
@@ -52,6 +59,10 @@ def cases(draw, tier="quick", mode=None):
     mode = mode or draw(st.sampled_from(["controlled", "controlled", "single", "single_class"]))
     n = 1 if mode in ("single", "single_class") else draw(st.integers(2, 4 if mode == "controlled" else 8))
     pipes = [draw(pipeline_specs(i)) for i in range(n)]
+    if draw(st.booleans()):
+        # all pipelines of the case use the process-wide default registry (the ordinary way to call the library)
+        for p in pipes:
+            p["opts"]["default_registry"] = True
     schedule = draw(st.lists(st.integers(0, 7), max_size=300)) if mode == "controlled" else []
     # threads may legitimately share a name (e.g. a pool that names all its workers alike)
     return {"mode": mode, "pipelines": pipes, "schedule": schedule, "same_thread_names": draw(st.sampled_from([False, False, True]))}
@@ -68,7 +79,10 @@ def valid(case):
         keysets = []
         from ..findings import all_keys
         for p in case["pipelines"]:
-            if not c01.valid({"samples": p["samples"], "opts": p["opts"]}):
+            po = dict(p["opts"])
+            if not isinstance(po.pop("default_registry", False), bool) or p.get("kind", "library") not in ("library", "cli"):
+                return False
+            if not c01.valid({"samples": p["samples"], "opts": po}):
                 return False
             keysets.append(set(k for s in p["samples"] for k in all_keys(s)))
         for i in range(len(keysets)):
@@ -80,14 +94,36 @@ def valid(case):
         return False
 
 
-def job(spec):
+def cli_argv(spec, path):
+    from .. import cliargs
+    o = pl.norm_opts(spec["opts"])
+    o["sreg"] = list(pl.DEFAULT_SREG)
+    return ["-m", "Root", path] + cliargs.option_args(o)
+
+
+def job(spec, path=None):
+    if spec.get("kind") == "cli" and path:
+        # a whole command-line pipeline: its own Cli object, parse_args + run (the header echoes process-wide argv: ignored)
+        def run_cli():
+            from json_to_models.cli import Cli
+            from .c16 import split_header
+            cli = Cli()
+            cli.parse_args(cli_argv(spec, path))
+            return split_header(cli.run())[1]
+        return run_cli
+
     def run():
         b = pl.build(spec["samples"], spec["opts"])
         return pl.render(b.reg, pl.norm_opts(spec["opts"]))
     return run
 
 
-def solo(spec):
+def solo(spec, path=None):
+    if spec.get("kind") == "cli" and path:
+        try:
+            return ("ok", job(spec, path)()), False, 1
+        except BaseException as e:  # noqa: BLE001
+            return ("exc", type(e).__name__, str(e)[:200]), False, 0
     try:
         b = pl.build(spec["samples"], spec["opts"])
         o = pl.norm_opts(spec["opts"])
@@ -107,11 +143,25 @@ def check(case):
     specs = case["pipelines"]
     mode = case["mode"]
     r.label("mode:" + mode, "threads:%d" % len(specs))
-    solos = [solo(s) for s in specs]
+    import json
+    import tempfile
+    tmp = tempfile.TemporaryDirectory(prefix="j2mv_c15_")
+    paths = []
+    for i, s in enumerate(specs):
+        pth = None
+        if s.get("kind") == "cli" and mode in ("controlled", "stress"):
+            pth = "%s/p%d.json" % (tmp.name, i)
+            with open(pth, "w", encoding="utf-8") as f:
+                json.dump(s["samples"], f)
+            r.label("pipeline:cli")
+        paths.append(pth)
+    if any(s["opts"].get("default_registry") for s in specs):
+        r.label("pipeline:default-registry")
+    solos = [solo(s, p) for s, p in zip(specs, paths)]
     any_ctx = any(c for _, c, _ in solos)
     if any_ctx:
         r.label("pipeline-with-nonempty-reference-context")
-    jobs = [job(s) for s in specs]
+    jobs = [job(s, p) for s, p in zip(specs, paths)]
     if mode == "single_class":
         # the per-class rendering API, from a fresh thread that has never been inside generate_code
         def one():
@@ -169,6 +219,7 @@ def check(case):
         finally:
             sys.setswitchinterval(old)
         r.nontrivial = any_ctx and len(jobs) >= 2
+    tmp.cleanup()
     for i, (got, (exp, _, _)) in enumerate(zip(results, solos)):
         if got is None:
             r.fail("thread-did-not-finish", f"pipeline {i}")
